@@ -60,9 +60,24 @@ def _run(ctx, proto, mutual, seed, hook, quiet_ms=400, after=None):
             raise AssertionError("endpoint set-up failed %s %s" % (rc, rs))
         hc, hs = s.handshake(timeout=30.0)
         extra = after(s, hc, hs) if after else None
+        if extra is None:
+            extra = _read_after(s, hc, hs)
         return hc, hs, list(s.proxy.log), s.proxy.stalled, extra
     finally:
         s.finish()
+
+
+def _read_after(s, hc, hs):
+    """second clause of the property: when exactly one endpoint reports a completed handshake, the other one never wrote application
+    data - so whatever the completed endpoint reads afterwards must not be data.  The failed endpoint's transport is closed first, so the
+    reader sees everything the failed side sent (its alert) and then the end of the stream instead of waiting.  -> ("one-completed", who,
+    result of the read) or None"""
+    if hc[0] == "timeout" or hs[0] == "timeout" or (hc[1] == 1) == (hs[1] == 1):
+        return None
+    done, failed, who = (s.client, s.server, "client") if hc[1] == 1 else (s.server, s.client, "server")
+    failed.do("close", timeout=10.0)
+    r = done.do("recv", 256, timeout=15.0)
+    return ("one-completed", who, r)
 
 
 def _baseline(ctx, proto, mutual, seed):
@@ -85,10 +100,18 @@ cfg = {"proto": st.sampled_from(net.PROTOS), "mutual": st.booleans(), "seed": st
 bit_case = st.fixed_dictionaries(dict(cfg, rec=st.integers(0, 63), byte=st.integers(0, 1 << 16), bit=st.integers(0, 7)))
 
 
-def _verdict(ctx, hc, hs, what, key, stalled):
+def _verdict(ctx, hc, hs, what, key, stalled, extra=None):
     if hc[0] == "timeout" or hs[0] == "timeout":
         ctx.note("inconclusive-timeout")
         return
+    if isinstance(extra, tuple) and extra and extra[0] == "one-completed":
+        who, r = extra[1], extra[2]
+        if r[0] != "timeout":
+            ctx.note("completed-side-read-after-failure")
+            ctx.check(not (r[0] == "recv" and r[1] == 1 and len(r[2]) > 0), "the %s reported a completed handshake, its peer failed and never wrote application data, yet the "
+                      "%s's next read returned %d bytes of application data (%s) although %s" % (who, who, len(r[2]) if r[0] == "recv" else 0,
+                                                                                                 r[2][:16].hex() if r[0] == "recv" else "", what),
+                      key.split("/")[0] + "/data-after-failed-peer/" + who)
     if stalled:
         ctx.note("ended-by-quiescence")
     ctx.check(not (hc[1] == 1 and hs[1] == 1), "both endpoints report a completed handshake although %s" % what, key)
@@ -113,12 +136,12 @@ def bitflip(case, ctx):
                 hit.append(1)
             return [bytes(b)]
         return [rec.raw]
-    hc, hs, log, stalled, _ = _run(ctx, proto, mutual, seed, hook)
+    hc, hs, log, stalled, ex = _run(ctx, proto, mutual, seed, hook)
     ctx.case(nontrivial=bool(hit), classes=[proto, "mutual" if mutual else "server-auth", "%s#%d" % (d, idx), "type%d" % raw[0]],
              ident=[proto, mutual, seed, d, idx, off, bit], sample=dict(case, dir=d, idx=idx, off=off))
     _verdict(ctx, hc, hs, "bit %d of byte %d of %s record #%d (type %d, %d bytes) was flipped in flight (%s, %s)" %
              (bit, off - 5, d, idx, raw[0], len(raw) - 5, proto, "mutual auth" if mutual else "server auth"),
-             "bitflip/%s/%s#%d" % (proto, d, idx), stalled)
+             "bitflip/%s/%s#%d" % (proto, d, idx), stalled, extra=ex)
 
 
 # The protected handshake records (the Finished messages of TLCP / TLS 1.2 right after ChangeCipherSpec; everything after ServerHello in
@@ -156,11 +179,11 @@ def finflip(case, ctx):
                     hit.append(1)
                 return [bytes(b)]
             return [rec.raw]
-        hc, hs, log, stalled, _ = _run(ctx, proto, mutual, seed, hook)
+        hc, hs, log, stalled, ex = _run(ctx, proto, mutual, seed, hook)
         ctx.case(nontrivial=bool(hit), classes=[proto, "mutual" if mutual else "server-auth", "protected:%s#%d" % (d, idx), "len=%d" % n],
                  ident=[proto, mutual, seed, d, idx, o, bit])
         _verdict(ctx, hc, hs, "bit %d of byte %d of the protected %s record #%d (type %d, %d bytes) was flipped in flight (%s, %s)" %
-                 (bit, o, d, idx, raw[0], n, proto, "mutual auth" if mutual else "server auth"), "finflip/%s/%s" % (proto, d), stalled)
+                 (bit, o, d, idx, raw[0], n, proto, "mutual auth" if mutual else "server auth"), "finflip/%s/%s" % (proto, d), stalled, extra=ex)
 
 
 FAULTS = ["drop", "dup", "swap", "trunc-adjust", "trunc-raw", "inject-earlier", "reflect", "extend", "inject-crafted", "inject-crafted"]
@@ -271,7 +294,7 @@ def recfault(case, ctx):
             ctx.check(not (r2[1] == 1 and len(r2[2]) > 0), "after %s the receiver accepted application data (%r) instead of rejecting the stray record" % (what, r2[2][:20]),
                       "recfault/post-stray-accepted/%s/%s" % (proto, dd))
         return
-    _verdict(ctx, hc, hs, what, "recfault/%s/%s/%s#%d" % (fault, proto, d, idx), stalled)
+    _verdict(ctx, hc, hs, what, "recfault/%s/%s/%s#%d" % (fault, proto, d, idx), stalled, extra=extra)
 
 
 # the four record-level faults the statement names, at EVERY record of the handshake: one case walks all records of one configuration
